@@ -446,6 +446,24 @@ func (g *schemaGenerator) generateDeclaredType(t *schemas.Type, scope nameScope)
 		if t.IsSubSchemaTypeElem() {
 			g.generateUnmarshaler(decl, []validator{})
 		}
+
+	case codegen.ArrayType, *codegen.ArrayType:
+		// A declared array type checks its own minItems / maxItems: the fields that refer to it only name it.
+		at, isPtr := tt.(*codegen.ArrayType)
+		if !isPtr {
+			if v, ok := tt.(codegen.ArrayType); ok {
+				at = &v
+			}
+		}
+
+		validators = g.structFieldValidators(nil, codegen.StructField{
+			Type:       at,
+			SchemaType: t,
+		}, at, false)
+
+		if len(validators) > 0 {
+			g.generateUnmarshaler(decl, validators)
+		}
 	}
 
 	return &codegen.NamedType{Decl: &decl}, nil
